@@ -1317,11 +1317,16 @@ class VM:
             sep = "," if not args or args[0] is UNDEFINED else to_string(args[0])
             return sep.join(array_elem_to_string(elem) for elem in arr._elements)
 
+        def callback_arg(args):
+            """The callback argument of an iteration method; it must be callable."""
+            callback = args[0] if args else UNDEFINED
+            if not (isinstance(callback, JSFunction) or callable(callback)):
+                raise JSTypeError(f"{method} callback is not a function")
+            return callback
+
         def map_fn(*args):
-            callback = args[0] if args else None
+            callback = callback_arg(args)
             this_arg = args[1] if len(args) > 1 else UNDEFINED
-            if not callback:
-                return JSArray()
             result = JSArray()
             result._elements = []
             for i, elem in enumerate(arr._elements):
@@ -1330,10 +1335,8 @@ class VM:
             return result
 
         def filter_fn(*args):
-            callback = args[0] if args else None
+            callback = callback_arg(args)
             this_arg = args[1] if len(args) > 1 else UNDEFINED
-            if not callback:
-                return JSArray()
             result = JSArray()
             result._elements = []
             for i, elem in enumerate(arr._elements):
@@ -1343,10 +1346,8 @@ class VM:
             return result
 
         def reduce_fn(*args):
-            callback = args[0] if args else None
+            callback = callback_arg(args)
             initial = args[1] if len(args) > 1 else UNDEFINED
-            if not callback:
-                raise JSTypeError("reduce callback is not a function")
             acc = initial
             start_idx = 0
             if acc is UNDEFINED:
@@ -1360,10 +1361,8 @@ class VM:
             return acc
 
         def reduceRight_fn(*args):
-            callback = args[0] if args else None
+            callback = callback_arg(args)
             initial = args[1] if len(args) > 1 else UNDEFINED
-            if not callback:
-                raise JSTypeError("reduceRight callback is not a function")
             acc = initial
             length = len(arr._elements)
             start_idx = length - 1
@@ -1399,10 +1398,8 @@ class VM:
             return result
 
         def forEach_fn(*args):
-            callback = args[0] if args else None
+            callback = callback_arg(args)
             this_arg = args[1] if len(args) > 1 else UNDEFINED
-            if not callback:
-                return UNDEFINED
             for i, elem in enumerate(arr._elements):
                 vm._call_callback(callback, [elem, i, arr], this_arg)
             return UNDEFINED
@@ -1427,10 +1424,8 @@ class VM:
             return -1
 
         def find_fn(*args):
-            callback = args[0] if args else None
+            callback = callback_arg(args)
             this_arg = args[1] if len(args) > 1 else UNDEFINED
-            if not callback:
-                return UNDEFINED
             for i, elem in enumerate(arr._elements):
                 val = vm._call_callback(callback, [elem, i, arr], this_arg)
                 if to_boolean(val):
@@ -1438,10 +1433,8 @@ class VM:
             return UNDEFINED
 
         def findIndex_fn(*args):
-            callback = args[0] if args else None
+            callback = callback_arg(args)
             this_arg = args[1] if len(args) > 1 else UNDEFINED
-            if not callback:
-                return -1
             for i, elem in enumerate(arr._elements):
                 val = vm._call_callback(callback, [elem, i, arr], this_arg)
                 if to_boolean(val):
@@ -1449,10 +1442,8 @@ class VM:
             return -1
 
         def some_fn(*args):
-            callback = args[0] if args else None
+            callback = callback_arg(args)
             this_arg = args[1] if len(args) > 1 else UNDEFINED
-            if not callback:
-                return False
             for i, elem in enumerate(arr._elements):
                 val = vm._call_callback(callback, [elem, i, arr], this_arg)
                 if to_boolean(val):
@@ -1460,10 +1451,8 @@ class VM:
             return False
 
         def every_fn(*args):
-            callback = args[0] if args else None
+            callback = callback_arg(args)
             this_arg = args[1] if len(args) > 1 else UNDEFINED
-            if not callback:
-                return True
             for i, elem in enumerate(arr._elements):
                 val = vm._call_callback(callback, [elem, i, arr], this_arg)
                 if not to_boolean(val):
@@ -1505,7 +1494,9 @@ class VM:
             return False
 
         def sort_fn(*args):
-            comparator = args[0] if args else None
+            comparator = args[0] if args else UNDEFINED
+            if comparator is not UNDEFINED:
+                comparator = callback_arg(args)
 
             # Default string comparison
             def default_compare(a, b):
@@ -1527,9 +1518,7 @@ class VM:
                 if b is UNDEFINED:
                     return -1
                 # Use comparator if provided
-                if comparator and (
-                    callable(comparator) or isinstance(comparator, JSFunction)
-                ):
+                if comparator is not UNDEFINED:
                     result = vm._call_callback(comparator, [a, b])
                     # Convert to integer for cmp_to_key
                     num = to_number(result) if result is not UNDEFINED else 0
